@@ -295,10 +295,15 @@ def check_history(events: list, table: dict[str, list], thread_inherits: bool = 
             ref.handle_meta[d['h']] = {'shape': d['shape'], 'ops': d['ops'], 'exact': d['exact']}
         elif kind == 'derive':
             exp_caps = ref.captured[d['src']] + (ref.captured[d['src2']] if d.get('src2') is not None else [])
-            if d['caps'] is not None and d['caps'] != exp_caps:
+            same = d['caps'] == exp_caps
+            if d['caps'] is not None and d['kind'].startswith('transpose'):
+                key = lambda c: repr(sorted(c.items()))  # noqa: E731 - order may be reversed by a transpose
+                same = sorted(map(key, d['caps'])) == sorted(map(key, exp_caps))
+            if d['caps'] is not None and not same:
                 return bad('K', seq, {'site': 'derive:' + d['kind'], 'caps': d['caps'], 'expected': exp_caps})
-            ref.captured[d['h']] = exp_caps
-            ref.handle_meta[d['h']] = {'shape': d['shape'], 'ops': d['ops'], 'exact': d['exact']}
+            if d['h'] is not None:  # None: a structural check only (transpose), no new handle
+                ref.captured[d['h']] = exp_caps
+                ref.handle_meta[d['h']] = {'shape': d['shape'], 'ops': d['ops'], 'exact': d['exact']}
         elif kind == 'apply':
             caps = ref.captured[d['h']]
             meta = ref.handle_meta[d['h']]
